@@ -10,5 +10,5 @@ if ! git -C /repo apply "$P" 2>/dev/null; then
   git -C /repo apply --3way "$P" >/dev/null 2>&1 || { echo "patch does not apply"; git -C /repo reset -q --hard; exit 2; }
   git -C /repo reset -q     # keep the change in the working tree only
 fi
-for c in "$@"; do ./check "$c" > /tmp/seedrun_$c.log 2>&1; rc=$?; echo "== $c exit=$rc $(grep -cE '^VIOLATION' /tmp/seedrun_$c.log) violation line(s)"; grep -E "^VIOLATION|^KNOWN" /tmp/seedrun_$c.log | head -2; done
+for c in "$@"; do VERIF_EVIDENCE_DIR=/tmp/seed_evidence ./check "$c" > /tmp/seedrun_$c.log 2>&1; rc=$?; echo "== $c exit=$rc $(grep -cE '^VIOLATION' /tmp/seedrun_$c.log) violation line(s)"; grep -E "^VIOLATION|^KNOWN" /tmp/seedrun_$c.log | head -2; done
 git -C /repo checkout -- .
